@@ -118,6 +118,15 @@ CLAIMED = {
         "existence pattern and submitted to the checker; get_all_design_vectors and the two-used-values rule are compared too.",
    note=BASE + "Onto-ness is decided per observed table (a theorem about that table), not proved once per encoder family. Known findings K5, K6, K16 (F7), K17-K21.",
    technique="Coq theorems about an extracted Gallina model + differential correspondence with the implementation", design="§6 C10"),
+ 'C11': dict(
+   text="Theorems: the connection sets of a choice in an instance are exactly the images of the valid matrices (ValidM) of the "
+        "settings built from the connectors PRESENT in that instance (absent ones drop out, excluded pairs between present ends "
+        "are kept); a grouping connector's aggregated degree is exactly the set of sums of one allowed degree per present finite "
+        "member; an accepted edge list joins present connectors and stands for a valid matrix. Per admissible assignment the "
+        "graph API is resolved and iter_conn_edges / validate_conn_edges / get_for_apply_connection_choice are compared with the "
+        "extracted conn_sets / edges_valid; a second batch compares the architectures reachable through GraphProcessor.",
+   note=BASE + "DSG.feasible is compared in one direction only. Processor level with connection choices has known findings K5, K22-K26.",
+   technique="Coq theorems about an extracted Gallina model + differential correspondence with the implementation", design="§6 C11"),
 }
 NA_REASON = "machinery under construction in this round; not yet claimed"
 
